@@ -57,6 +57,23 @@ def seq_slice(s, lo, hi, ctx):
         # fully concrete geometry
         terms = s.terms()
         return Seq(s.kind, [Elems(terms[lo:hi])])
+    # end-relative cuts  s[:len-k]  /  s[len-k:]  that fall inside a concrete tail
+    if isz(total):
+        def back_offset(b):
+            if b is None or not isz(b):
+                return None
+            d = as_const(simp(zi(total) - b))
+            return d if d is not None and d >= 0 else None
+        kh = back_offset(hi) if hi is not None else 0
+        kl = back_offset(lo) if lo is not None else None
+        if (lo is None or (not isz(lo) and lo == 0)) and kh is not None and hi is not None:
+            r = _drop_tail(s, kh)
+            if r is not None:
+                return r
+        if hi is None and kl is not None:
+            r = _take_tail(s, kl)
+            if r is not None:
+                return r
     # normalise bounds to [0, total] as terms / ints
     def norm(b, default):
         if b is None:
@@ -161,6 +178,36 @@ def seq_slice(s, lo, hi, ctx):
     g = Gen(n, lambda i, base=base, aa=aa: base.at(simp(zi(aa) + zi(i))), key, 0, _common_flags(s))
     g.origin = ("view", base, aa)
     return Seq(s.kind, [g])
+
+
+def _drop_tail(s, k):
+    segs = list(s.segs)
+    while k > 0:
+        if not segs or not isinstance(segs[-1], Elems):
+            return None
+        g = segs.pop()
+        if len(g.terms) > k:
+            segs.append(Elems(g.terms[:len(g.terms) - k]))
+            k = 0
+        else:
+            k -= len(g.terms)
+    return Seq(s.kind, segs)
+
+
+def _take_tail(s, k):
+    out = []
+    segs = list(s.segs)
+    while k > 0:
+        if not segs or not isinstance(segs[-1], Elems):
+            return None
+        g = segs.pop()
+        if len(g.terms) >= k:
+            out.insert(0, Elems(g.terms[len(g.terms) - k:]))
+            k = 0
+        else:
+            out.insert(0, g)
+            k -= len(g.terms)
+    return Seq(s.kind, out)
 
 
 def _common_flags(s):
